@@ -1,12 +1,10 @@
 import ExaModel.Props.C09
 #print axioms Exa.Props.C09.ext_len_switch
 #print axioms Exa.Props.C09.c09_fits
+#print axioms Exa.Props.C09.c09_no_exception
 #print axioms Exa.Props.C09.c09_complete
 #print axioms Exa.Props.C09.c09_nothing_else
 #print axioms Exa.Props.C09.c09_own_nexthop
+#print axioms Exa.Props.C09.c09_attrs_present
 #print axioms Exa.Props.C09.c09_no_room
-#print axioms Exa.Props.C09.c09_gives_up_before_first_message
-#print axioms Exa.Props.C09.c09_rib_shaped_runs_to_end
-#print axioms Exa.Props.C09.c09_partial
-#print axioms Exa.Props.C09.c09_unfit_oversize
-#print axioms Exa.Props.C09.c09_mixed_mp_raises
+#print axioms Exa.Props.C09.c09
